@@ -97,6 +97,7 @@ type c28Req struct {
 	Payload   []byte            `json:"payload,omitempty"`
 	Gzip      bool              `json:"gzip,omitempty"` // grpc message compression
 	WatchdogMs int              `json:"watchdog_ms,omitempty"` // 0 = the batch's
+	BodyLen   int               `json:"-"`              // parent only: len(Raw) / len(Payload) before the parent trimmed them
 	Class     string            `json:"class"`          // route / content / encoding / body class
 	Desc      string            `json:"desc"`
 }
@@ -1261,6 +1262,8 @@ func (g *c28Gen) libhoneyBody(batch bool, extreme bool) (body []byte, ct string,
 			}
 		}
 		class += "/nest"
+	case k == 18 && !rng.Chance(0.2):
+		class += "/tree"
 	case k == 18: // big but legal
 		body = enc(VMap(KV("trace.trace_id", VStr("trace-1")), KV("a", VStr(strings.Repeat("z", verifkit.Pick(rng, 100_000, 1_000_000, 4_999_000, 5_100_000))))))
 		if batch {
@@ -2007,11 +2010,11 @@ func c28Witness(r *c28Req, extra map[string]any) map[string]any {
 	w := map[string]any{"index": r.Index, "class": r.Class, "desc": r.Desc, "proto": r.Proto}
 	if r.Proto == "grpc" {
 		w["method"], w["metadata"], w["grpc_gzip"] = r.Method, c28ClipMD(r.MD), r.Gzip
-		w["payload_len"] = len(r.Payload)
+		w["payload_len"] = max(r.BodyLen, len(r.Payload))
 		w["payload_head_base64"] = base64.StdEncoding.EncodeToString(r.Payload[:min(len(r.Payload), 600)])
 	} else {
 		w["listener"], w["half_close"] = r.Listener, r.HalfClose
-		w["raw_len"] = len(r.Raw)
+		w["raw_len"] = max(r.BodyLen, len(r.Raw))
 		head := r.Raw[:min(len(r.Raw), 1500)]
 		w["raw_head"] = strconv.QuoteToASCII(string(head))
 	}
@@ -2057,7 +2060,40 @@ func TestVerif_C28Requests(t *testing.T) {
 			}
 		}
 	}
-	reqs := make([]c28Req, 0, n)
+	// Every batch file is written as soon as its requests exist; the parent then keeps only the
+	// first 1.5 KB of each body (for witnesses), so its memory does not grow with the tier.
+	type batchDef struct {
+		lo, hi int
+		file   string
+		b      c28Batch
+		werr   error
+	}
+	var batches []*batchDef
+	prof := run.Rand("profiles")
+	var cur *batchDef
+	flush := func() {
+		if cur == nil {
+			return
+		}
+		cur.hi = cur.lo + len(cur.b.Requests)
+		js, err := json.Marshal(cur.b)
+		if err == nil {
+			err = os.WriteFile(cur.file, js, 0o644)
+		}
+		cur.werr = err
+		for k := range cur.b.Requests {
+			r := &cur.b.Requests[k]
+			r.BodyLen = max(len(r.Raw), len(r.Payload))
+			if len(r.Raw) > 1500 {
+				r.Raw = append([]byte(nil), r.Raw[:1500]...)
+			}
+			if len(r.Payload) > 600 {
+				r.Payload = append([]byte(nil), r.Payload[:600]...)
+			}
+		}
+		batches = append(batches, cur)
+		cur = nil
+	}
 	run.Cases("requests", n, func(i int, rng *verifkit.Rand) {
 		g := &c28Gen{rng: rng, scale: scale}
 		slot := -1
@@ -2069,25 +2105,19 @@ func TestVerif_C28Requests(t *testing.T) {
 		if slot >= 0 && run.Thorough() {
 			r.WatchdogMs = 600_000 // full-size maximal nesting takes the OTLP translator minutes
 		}
-		reqs = append(reqs, r)
+		if cur == nil {
+			pidx := i / perBatch
+			cur = &batchDef{lo: len(batches) * perBatch, file: filepath.Join(dir, fmt.Sprintf("c28req-batch-%d.json", i))}
+			cur.b = c28Batch{Scale: scale, WatchdogMs: int(watchdog / time.Millisecond), Profile: c28GenProfile(prof.Fork(strconv.Itoa(pidx)), pidx)}
+		}
+		cur.b.Requests = append(cur.b.Requests, r)
+		if len(cur.b.Requests) >= perBatch {
+			flush()
+		}
 	})
-	if len(reqs) == 0 {
+	flush()
+	if len(batches) == 0 {
 		return
-	}
-	// VERIF_CASE replays one request alone: one batch of one
-	type batchDef struct {
-		lo, hi int
-		file   string
-		b      c28Batch
-	}
-	var batches []*batchDef
-	prof := run.Rand("profiles")
-	for lo := 0; lo < len(reqs); lo += perBatch {
-		hi := min(lo+perBatch, len(reqs))
-		bd := &batchDef{lo: lo, hi: hi, file: filepath.Join(dir, fmt.Sprintf("c28req-batch-%d.json", lo))}
-		pidx := reqs[lo].Index / perBatch
-		bd.b = c28Batch{Scale: scale, WatchdogMs: int(watchdog / time.Millisecond), Profile: c28GenProfile(prof.Fork(strconv.Itoa(pidx)), pidx), Requests: reqs[lo:hi]}
-		batches = append(batches, bd)
 	}
 
 	// ---- execute batches in child processes (lanes in parallel; results handled in order) ----
@@ -2101,10 +2131,7 @@ func TestVerif_C28Requests(t *testing.T) {
 			defer wg.Done()
 			sem <- struct{}{}
 			defer func() { <-sem }()
-			js, err := json.Marshal(bd.b)
-			if err == nil {
-				err = os.WriteFile(bd.file, js, 0o644)
-			}
+			err := bd.werr
 			res := &c28BatchResult{}
 			results[bi] = res
 			if err != nil {
